@@ -478,28 +478,99 @@ def opcString (M : Meta) (o : Nat) : Nat :=
   | 0 => 0
   | o+1 => M.opcStrings.getD o 0
 
+/-- forms of an opcode: the range recorded in `opcformstable` (what `opc.Forms()` returns) -/
+def formsOf (M : Meta) (forms : List Form) (o : Nat) : List Form :=
+  match o with
+  | 0 => []
+  | o+1 =>
+    match M.opcRanges[o]? with
+    | some (lo, hi) => (forms.drop lo).take (hi - lo)
+    | none => []
+
+/-- class of an explicit operand specification -/
+def specClass (M : Meta) (s : FOp) : Option OpClass :=
+  match s.ty with
+  | 0 => none
+  | t+1 => match M.oprndTypes[t]? with
+    | some (_, chk) => OpClass.ofChecker chk
+    | none => none
+
+def allSome {α} : List (Option α) → Option (List α)
+  | [] => some []
+  | none :: _ => none
+  | some a :: xs => (allSome xs).map (a :: ·)
+
+/-- explicit operand classes of a form (the first `arity` entries) -/
+def Form.classList (M : Meta) (f : Form) : Option (List OpClass) :=
+  allSome ((f.ops.take f.arity).map (specClass M))
+
+/-- A documentation row, read back: mnemonic and operand classes. -/
+def parseDoc (row : Nat) : Option (Nat × List OpClass) :=
+  match Name.words row with
+  | [] => none
+  | m :: ts => (allSome (ts.map OpClass.ofDoc)).map (m, ·)
+
+/-- an operand list matches a documented class tuple -/
+def tupleMatches : List OpClass → List Operand → Bool
+  | [], [] => true
+  | c :: cs, o :: os => c.holds o && tupleMatches cs os
+  | _, _ => false
+
+/-- One opcode of the enum: const identifier, `String()`, `opcformstable` range. -/
+structure OpcEntry where
+  ident : Nat
+  str : Nat
+  lo : Nat
+  hi : Nat
+  deriving DecidableEq, Repr, Inhabited
+
+def zipEntries : List Nat → List Nat → List (Nat × Nat) → List OpcEntry
+  | i :: is, s :: ss, (lo, hi) :: rs => ⟨i, s, lo, hi⟩ :: zipEntries is ss rs
+  | _, _, _ => []
+
+def Meta.entries (M : Meta) : List OpcEntry := zipEntries M.opcs M.opcStrings M.opcRanges
+
+/-- what the doc rows of a function (mnemonic `mn`, suffixes `s`) must be, given
+the forms of its opcode: one tuple per form whose suffix class admits `s` -/
+def expectedTuples (M : Meta) (mn : Nat) (s : Sfx) (grp : List Form) : List (Option (Nat × List OpClass)) :=
+  (grp.filter (fun f => admits M f.cls s)).map (fun f => (f.classList M).map (mn, ·))
+
+/-- the documentation of a function is a permutation of the expected tuples -/
+def docOK (M : Meta) (mn : Nat) (s : Sfx) (grp : List Form) (doc : List Nat) : Bool :=
+  let e := expectedTuples M mn s grp
+  e.all Option.isSome && (doc.map parseDoc).isPerm e
+
 /-- forwarding is the identity: a literal slice of the parameters in
 declaration order, or the variadic slice itself -/
 def forwardsInOrder (params : List Nat) (variadic : Bool) (args : List Nat) (whole : Bool) : Bool :=
   if variadic then whole && params.length == 1 && args == params
   else !whole && args == params && params.Nodup
 
-/-- the body is `return build(opcX.Forms(), sffxs{…}, []operand.Op{params…})` -/
-def CtorRow.shapeOK (M : Meta) (c : CtorRow) : Bool :=
-  c.callee == nBuild && c.formsSel == nForms && c.sfxType == nSffxs &&
-  codeOf M.opcs c.opcConst != 0 && (sfxOf M c.sfxConsts).isSome &&
-  forwardsInOrder c.params c.variadic c.args c.argsIsSlice
+/-- The judgement on one constructor row, relative to its opcode entry `e`
+(the `k`-th opcode) and the forms `grp` of that opcode: the body is
+`return build(<e.ident>.Forms(), sffxs{…}, []operand.Op{params in order})`, the
+name is mnemonic_suffixes and the documentation lists exactly the admitted forms. -/
+def ctorOK (M : Meta) (_k : Nat) (e : OpcEntry) (grp : List Form) (c : CtorRow) : Bool :=
+  c.callee == nBuild && c.formsSel == nForms && c.sfxType == nSffxs && c.opcConst == e.ident &&
+  forwardsInOrder c.params c.variadic c.args c.argsIsSlice &&
+  match sfxOf M c.sfxConsts with
+  | none => false
+  | some s =>
+    c.name == Name.join nUnderscore (e.str :: sfxStrings M s) &&
+    docOK M (Name.join nDot (e.str :: sfxStrings M s)) s grp c.doc
 
-def CtorRow.opc (M : Meta) (c : CtorRow) : Nat := codeOf M.opcs c.opcConst
-def CtorRow.sfx (M : Meta) (c : CtorRow) : Sfx := (sfxOf M c.sfxConsts).getD (0, 0)
-
-/-- function name = mnemonic + "_" + suffix strings joined by "_" -/
-def funcName (M : Meta) (o : Nat) (s : Sfx) : Nat :=
-  Name.join nUnderscore (opcString M o :: sfxStrings M s)
-
-/-- documented mnemonic = opcode + "." + suffixes joined by "." -/
-def mnemonic (M : Meta) (o : Nat) (s : Sfx) : Nat :=
-  Name.join nDot (opcString M o :: sfxStrings M s)
+/-- Streaming join of the opcode enum, the forms table and the constructor rows
+(both grouped by opcode in enum order).  `k` is the code of the opcode at the
+head of `es`, `pos` the number of form rows consumed so far. -/
+def ctorPass (P : Nat → OpcEntry → List Form → CtorRow → Bool) :
+    Nat → Nat → List OpcEntry → List Form → List CtorRow → Bool
+  | _, _, [], fs, cs => fs.isEmpty && cs.isEmpty
+  | k, pos, e :: es, fs, cs =>
+    let grp := fs.takeWhile (fun f => f.opc == k)
+    (e.lo == pos && e.hi == pos + grp.length) &&
+    ((cs.takeWhile (fun c => c.opcConst == e.ident)).all (P k e grp) &&
+    ctorPass P (k+1) (pos + grp.length) es (fs.dropWhile (fun f => f.opc == k))
+      (cs.dropWhile (fun c => c.opcConst == e.ident)))
 
 def WrapRow.methodOK (w : WrapRow) : Bool :=
   w.recv == nC && w.via == nAddinstruction && w.pkg == nX86 && w.callee == w.name &&
@@ -509,46 +580,24 @@ def WrapRow.globalOK (w : WrapRow) : Bool :=
   w.recv == nCtx && w.via == 0 && w.pkg == 0 && w.callee == w.name &&
   forwardsInOrder w.params w.variadic w.args w.spread
 
-/-- forms of an opcode: the range recorded in `opcformstable` -/
-def formsOf (M : Meta) (forms : List Form) (o : Nat) : List Form :=
-  match o with
-  | 0 => []
-  | o+1 =>
-    match M.opcRanges[o]? with
-    | some (lo, hi) => (forms.drop lo).take (hi - lo)
-    | none => []
+/-- constructor, method and global rows pairwise: same name, same parameter
+list, same documentation rows, recognised bodies -/
+def layersOK : List CtorRow → List WrapRow → List WrapRow → Bool
+  | [], [], [] => true
+  | c :: cs, m :: ms, g :: gs =>
+    (m.name == c.name && g.name == c.name && m.methodOK && g.globalOK &&
+     m.params.length == c.params.length && g.params.length == c.params.length &&
+     m.variadic == c.variadic && g.variadic == c.variadic &&
+     m.doc == c.doc && g.doc == c.doc) && layersOK cs ms gs
+  | _, _, _ => false
 
-/-- explicit operand classes of a form (the first `arity` entries) -/
-def Form.classes (M : Meta) (f : Form) : List (Option OpClass) :=
-  (f.ops.take f.arity).map (fun s =>
-    match s.ty with
-    | 0 => none
-    | t+1 => match M.oprndTypes[t]? with
-      | some (_, chk) => OpClass.ofChecker chk
-      | none => none)
-
-/-- the documentation row text of a form under a function's suffixes -/
-def Form.docRow (M : Meta) (f : Form) (s : Sfx) : Nat :=
-  Name.join nSpace (mnemonic M f.opc s :: (f.classes M).map (fun c => match c with | some c => c.doc | none => 0x3f))
-
-/-- the rows a function (opcode o, suffixes s) must document: the forms of the
-opcode whose suffix class admits s, in table order -/
-def expectedDoc (M : Meta) (forms : List Form) (o : Nat) (s : Sfx) : List Nat :=
-  ((formsOf M forms o).filter (fun f => admits M f.cls s)).map (fun f => f.docRow M s)
-
-/-- A documentation row, read back: mnemonic and operand classes. -/
-def parseDoc (row : Nat) : Option (Nat × List OpClass) :=
-  match Name.words row with
-  | [] => none
-  | m :: ts =>
-    let cs := ts.map OpClass.ofDoc
-    if cs.all Option.isSome then some (m, cs.filterMap id) else none
-
-/-- an operand list matches a documented class tuple -/
-def tupleMatches : List OpClass → List Operand → Bool
-  | [], [] => true
-  | c :: cs, o :: os => c.holds o && tupleMatches cs os
-  | _, _ => false
+/-- well-formedness of a form row: the first `arity` entries are explicit
+operands of a known class, the rest implicit registers of a known code -/
+def Form.wf (M : Meta) (f : Form) : Bool :=
+  f.arity ≤ f.ops.length && f.ops.length ≤ M.maxOperands &&
+  (f.ops.take f.arity).all (fun s => !s.impl && (specClass M s).isSome && s.act ≤ 3) &&
+  (f.ops.drop f.arity).all (fun s => s.impl && (implReg M s.ty).isSome && s.act ≤ 3) &&
+  (1 ≤ f.cls && f.cls ≤ M.sffxsClsSets.length) && (1 ≤ f.isa && f.isa ≤ M.isasLists.length)
 
 end Instr
 end Avo
